@@ -39,6 +39,7 @@ func (s *State) clone() *State {
 type loopInfo struct {
 	head    *ssa.BasicBlock
 	ordinal int
+	contractOrd int // ordinal of the contract's clause group bound to this loop when it differs (remapLoops); -1: none
 	blocks  map[int]bool
 	backs   []*ssa.BasicBlock // sources of back edges
 	// state and substitution base captured at head
